@@ -33,6 +33,11 @@ class RecordingExecutor(SemantivaExecutor):
             entry["exc_type"] = type(exc).__name__
             entry["exc_obj"] = exc
             entry["t_end"] = w.clock.wall
+            try:
+                if w.cur_ctx_obj is not None:
+                    entry["ctx_on_error"] = _world.ctx_snapshot(w.cur_ctx_obj)     # what the node left behind before raising
+            except Exception:
+                pass
             w.log("exec.raise", w.cur_run, idx, type(exc).__name__)
             raise
         entry["status"] = "returned"
@@ -50,6 +55,8 @@ class RecordingExecutor(SemantivaExecutor):
                 ctx_obj.set_value(k, v)
             w.cur_ctx_obj = new_ctx
             w.probe("remote_executor_node")
+        if not w.remote_exec:
+            w.cur_ctx_obj = result.context
         try:
             entry["post_ctx"] = _world.ctx_snapshot(result.context)
             entry["out_type"] = type(result.data).__name__
